@@ -61,10 +61,29 @@ def gen_cases(rng, tier):
         for _i in range(rng.below(4)):
             st.append((rng.range(1, 3), rng.choice([0, 1, 32, 64, 252, 253, 254, 1000, rng.below(5000)])))
         add(rng.range(0, CONSENSUS_MAX), st)
+    # weight -> cost conversion for arbitrary 64-bit weights (saturation, monotonicity)
+    ws = set([0, 1, 2, 999, 4000049, 4000050, 4000051, 4294966, 4294967, 4294968, 4294969, 5000000,
+              2**32 - 1, 2**32, 2**32 + 1, 2**40, 2**63, 2**64 - 1])
+    for _ in range(60 if tier == "quick" else 2000):
+        ws.add(rng.range(0, 2**rng.range(1, 64)))
+        ws.add(rng.range(4290000, 4300000))
+    for w in sorted(ws):
+        n[0] += 1
+        cases.append(Case("b%d" % n[0], "conv", "%d" % w, "run_conv %d" % w, {"w": w}))
     return cases
 
 
 def prop_check(c, r):
+    if c.kind == "conv":
+        w = c.meta["w"]
+        if not isinstance(r, list) or len(r) != 2:
+            return ("panic", "weight conversion panicked on %d" % w)
+        exp = min(w * 1000, 2**32 - 1)
+        if r[0] != exp:
+            return ("cost_of_weight", "Cost::from(Weight %d) = %d, expected saturating %d (monotone in the weight)" % (w, r[0], exp))
+        if r[1] != min((exp + 999), 2**32 - 1) // 1000:
+            return ("weight", "Weight::from(Cost %d) = %d" % (exp, r[1]))
+        return None
     cost, rle = c.meta["c"], c.meta["rle"]
     if not isinstance(r, list) or r == [9] or len(r) != 6:
         return ("panic", "budget functions panicked on cost %d stack %s" % (cost, rle))
@@ -94,6 +113,8 @@ def prop_check(c, r):
 
 
 def nontrivial(c, r):
+    if c.kind == "conv":
+        return ("conv", c.meta["w"]) if c.meta["w"] > 4000050 else None
     cost, rle = c.meta["c"], c.meta["rle"]
     w = (cost + 999) // 1000
     d = w - (ser_len(rle) + 50)
